@@ -1,20 +1,31 @@
 // Harness c12: the real StateDB / ContractState / BlockState / AccountState (memorydb) driven by
-// generated sessions of account puts, storage sets/deletes, contract open/stage, block snapshots and
-// rollbacks in any nesting, contract-level snapshots/rollbacks, update, commit and reopen.
+// generated sessions of account puts, AccountState objects held across snapshots (SetNonce / AddBalance /
+// Reset / PutState), storage sets/deletes, contract open/stage (also on the working record of a held
+// AccountState, with SetCode), block snapshots and rollbacks in any nesting, contract-level
+// snapshots/rollbacks, update, commit and reopen. tx.go drives the CALLERS of the snapshot API
+// (chain.NewTxExecutor / executeTx / contract.Execute) and checks that they stay inside the discipline
+// the generated sessions obey.
 //
-// After every operation it records all reads (every account, every storage key of every contract)
-// and the export lists of every buffer (trace compared line by line with the Lean model), and it
-// evaluates the property on the real code:
+// After every operation it records all reads (every account: nonce/balance/code; every storage key of every
+// contract; HasKey of every key) and the export lists of every buffer (trace compared line by line with the
+// Lean model, whose driver also runs the definitions the theorems are stated over - runB, survivors, Spec,
+// commitBlock - on the same operations and flags any disagreement), and it evaluates the property on the real code:
 //
-//	(i)   every read equals a plain reference (Go maps, a snapshot = a deep copy, a rollback = put the copy back);
+//	(i)   every read equals a plain reference (Go maps, a snapshot = a deep copy, a rollback = put the copy back;
+//	      an AccountState = two records by value);
 //	(ii)  the root after Update/Commit, and the persisted key/value pairs after Commit, equal those of a fresh
-//	      StateDB that executed only the surviving operations (reverted spans deleted);
+//	      StateDB that executed only the surviving operations (reverted spans deleted) - except contract code
+//	      written by a reverted SetCode, which SetRawKV put into the store at call time;
 //	(iii) a StateDB reopened at a committed root returns the surviving values;
 //	(iv)  no buffer exports a value other than the currently visible one, and every key with a
-//	      surviving uncommitted write is exported.
+//	      surviving uncommitted write is exported;
+//	(v)   no entry of any undo log changes after it was written (the logs hold pointers, model and reference
+//	      hold values: in-place mutation of a buffered record is what would separate them);
+//	(vi)  HasKey = a surviving buffered write (a delete marker counts) or a value in the storage trie.
 //
 // Discipline of the generated sessions (documented in notes/C12.md): a block rollback closes all
-// open contract handles (a transaction aborts); snapshots are invalidated by rollback to an
+// open contract handles and drops all held AccountStates (a transaction aborts); an AccountState that has
+// been put is not touched again; none is kept across an Update; snapshots are invalidated by rollback to an
 // earlier snapshot, by Update/Commit and by reopening; `commit` is Update+Commit (as in every caller in
 // the repository), a bare Commit (`commit0`) is issued only directly after an Update. Any number of
 // Updates may precede a Commit, with or without writes in between.
@@ -1352,11 +1363,28 @@ func (g *gen) random(length int) {
 	if rng.Chance(1, 4) {
 		nk = 3
 	}
-	if rng.Chance(1, 8) {
-		na, nk = 6, 4
+	wide := rng.Chance(1, 8)
+	if wide {
+		na, nk = 6+rng.Intn(3), 4
 	}
 	s := g.start(na, nk)
 	g.run.Count(fmt.Sprintf("random-universe=%dx%d", na, nk))
+	if wide {
+		// many staged storages at once (a block that touched many contracts): stage most of them first
+		for c := 0; c < na; c++ {
+			if rng.Chance(1, 6) {
+				continue
+			}
+			for _, o := range []op{{kind: "open", a: c}, {kind: "set", a: c, b: rng.Intn(nk), c: s.nextTok}, {kind: "stage", a: c}} {
+				if !g.record(s, o) {
+					return
+				}
+				if freshTok(o) {
+					s.nextTok++
+				}
+			}
+		}
+	}
 	inTx := -1 // index of the snapshot opened by the current "transaction", if any
 	for i := 0; i < length; i++ {
 		cands := s.candidates(true, true)
@@ -1679,10 +1707,12 @@ func parseOp(line string) (op, bool) {
 }
 
 func main() {
-	run := vh.Start("c12", "sessions on the real StateDB/ContractState/BlockState over memorydb: scripted shapes; every valid operation "+
+	run := vh.Start("c12", "sessions on the real StateDB/ContractState/BlockState/AccountState over memorydb: scripted shapes; every valid operation "+
 		"sequence up to a fixed length on 2 accounts x 2 storage keys (depth-first, model follows with 'back'); random sessions "+
-		"(2-4 accounts, 2-3 keys, nested block snapshots/rollbacks, contract-level snapshots, update/commit/reopen). "+
-		"Every op records all reads and all buffer exports. non-trivial = any op other than 'new'/'back'; distinct by (op, answer)")
+		"(2-8 accounts, 2-4 keys, values up to 4 kB, nested block snapshots/rollbacks, contract-level snapshots, held AccountState objects, "+
+		"SetCode, update/commit/reopen); transaction-shaped sessions; plus the real transaction executor (chain.NewTxExecutor, stub VM) "+
+		"block after block with the usage-discipline checks D1-D5 after every transaction (counted as evaluations, no model line). "+
+		"Every op records all reads, HasKey bits and all buffer exports. non-trivial = any op other than 'new'/'back'; distinct by (op, answer)")
 	defer run.Finish()
 	scratch = filepath.Join(run.Out, "db")
 	os.MkdirAll(scratch, 0o755)
